@@ -464,8 +464,8 @@ impl Property for C18 {
     }
     fn budget(&self, tier: Tier) -> (u32, usize) {
         match tier {
-            Tier::Quick => (30_000, 8),
-            Tier::Thorough => (500_000, 16),
+            Tier::Quick => (80_000, 8),
+            Tier::Thorough => (2_000_000, 16),
         }
     }
     fn run(&self, case: &HcCase) -> Report {
